@@ -1,4 +1,5 @@
 import F3.Proofs.InstanceRun
+import F3.Props.C07
 /-!
 # C06 — termination (partial by nature)
 
@@ -152,6 +153,54 @@ theorem skip_rule (s : State) (now : Int) (round : Nat) (p : ConvVal)
     · exact Or.inr hst
   apply hrr
   split <;> split <;> simp
+
+/-! ### the untimed core of "unanimous and synchronous ⇒ that chain is decided in round 0" (C02, second sentence)
+
+Once a strong quorum for the unanimous value has been tallied, each phase ends with that value without waiting for
+its timer: QUALITY → PREPARE for the input, PREPARE → COMMIT for the proposal, COMMIT → DECIDE for the quorum value,
+DECIDE → termination (`decide_quorum_terminates`). What is not a theorem is that the quorum *is* tallied in time. -/
+
+theorem unanimous_step_quality (s : State) (now : Int) (h : s.phase = .quality) (hp : s.proposal = s.input)
+    (hq : s.quality.hasStrongFor s.input = true) :
+    (s.tryQuality now).1.phase = .prepare ∧ (s.tryQuality now).1.proposal = s.input ∧
+      Eff.broadcast s.round .prepare s.input false none ∈ (s.tryQuality now).2 := by
+  have hl : s.quality.longestPrefixWithQuorum s.input = s.input :=
+    (F3.Props.C07.longest_prefix_spec s.quality s.input).2.2 hq
+  unfold State.tryQuality
+  simp only [h, hp, hq, bne_self_eq_false, Bool.false_eq_true, if_false, Bool.true_or, if_true, hl]
+  unfold State.beginPrepare State.alarmAfter State.resetReb
+  simp [F3.Props.C07.addCandidatePrefixes_proposal]
+
+theorem unanimous_step_prepare (s : State) (now : Int) (h : s.phase = .prepare) (hne : s.proposal ≠ [])
+    (hq : s.prepFoundQuorum = true) :
+    (s.tryPrepare now).1.phase = .commit ∧ (s.tryPrepare now).1.value = s.proposal ∧
+      (hasFailure (s.tryPrepare now).2 = true ∨
+        ∃ j, Eff.broadcast s.round .commit s.proposal false (some j) ∈ (s.tryPrepare now).2) := by
+  have hne' : s.proposal.isEmpty = false := by cases hc : s.proposal <;> simp_all
+  unfold State.tryPrepare State.prepareValue
+  simp only [h, hq, bne_self_eq_false, Bool.false_eq_true, if_false, Bool.true_or, if_true]
+  unfold State.beginCommit State.alarmAfter State.resetReb
+  simp only [hne', Bool.false_eq_true, if_false]
+  split
+  · rename_i j _
+    exact ⟨rfl, rfl, Or.inr ⟨j, by simp⟩⟩
+  · exact ⟨rfl, rfl, Or.inl (by simp)⟩
+
+theorem unanimous_step_commit (s : State) (now : Int) (c : Chain) (hne : c ≠ [])
+    (hq : (s.getRound s.round).committed.findStrongQuorumValue = .one c) :
+    (s.tryCommit now s.round).1.phase = .decide ∧ (s.tryCommit now s.round).1.value = c ∧
+      (hasFailure (s.tryCommit now s.round).2 = true ∨
+        ∃ j, Eff.broadcast 0 .decide c false (some j) ∈ (s.tryCommit now s.round).2) := by
+  have hne' : c.isEmpty = false := by cases c <;> simp_all
+  unfold State.tryCommit
+  simp only [hq, hne', Bool.not_false, if_true]
+  unfold State.beginDecide State.resetReb
+  dsimp only
+  split
+  · rename_i sg _
+    exact ⟨rfl, rfl, Or.inr ⟨{ round := s.round, phase := .commit, value := c, signers := sg }, by simp⟩⟩
+  · exact ⟨rfl, rfl, Or.inl (by simp)⟩
+  · exact ⟨rfl, rfl, Or.inl (by simp)⟩
 
 /-- Non-vacuity of the hypotheses: a PREPARE-phase state whose timer has fired with all three members heard. -/
 example : ∃ s : State, ∃ now : Int, s.phase = .prepare ∧
